@@ -6,7 +6,7 @@ import os
 
 from .. import cfggen, fold, model, runner, statemodel, uplink
 from ..model import C
-from ..scen import Scn, call, up, s as S_
+from ..scen import Scn, call, up, raw, s as S_
 
 def cfg_dir(tag):
     d = os.path.join(runner.run_dir(), 'cfg_' + tag)
@@ -165,6 +165,7 @@ def gen_scenario(ctx, k):
     sc = Scn(seed=ctx.seed * 43 + k, watchdog=240000)
     sc.add(*cfggen.bus_lines(cfg, nodes), 'bus brackets 1', f'start {d} 0', 'quiesce', 'snap s0')
     hooks = {}
+    ncorrupt = [0]
     nmsg = rng.randrange(5, 120)
     for i in range(nmsg):
         if rng.random() < 0.2:
@@ -175,8 +176,27 @@ def gen_scenario(ctx, k):
                     hooks[f'h{i}'] = hook
                     sc.add(f'mark h{i}')
         else:
-            addr, t, data = gen_feedback(rng, m, cfg, nodes)
-            sc.add(up(model.build_msg(addr, 0, t, data)), 'quiesce')
+            # one packet: 1-4 feedback messages with arbitrary sequence numbers (an unexpected number must not drop anything); one packet in
+            # ten arrives with a broken CRC and must then have no effect at all (C02, observed through the getters)
+            msgs = []
+            for _ in range(1 if rng.random() < 0.7 else rng.randrange(2, 5)):
+                addr, t, data = gen_feedback(rng, m, cfg, nodes)
+                msgs.append(model.build_msg(addr, rng.choice([0, 0, rng.randrange(256)]), t, data))
+            if rng.random() < 0.1:
+                fr = bytearray(model.frame(b''.join(msgs)))
+                for _try in range(20):
+                    pos = rng.randrange(1, len(fr) - 1)
+                    cand = bytearray(fr)
+                    cand[pos] ^= 1 << rng.randrange(8)
+                    if cand[pos] in (0xFE, 0xFD) or fr[pos] in (0xFE, 0xFD) or (pos > 0 and fr[pos - 1] == 0xFD):
+                        continue
+                    good = [p_ for p_ in model.lenient_deframe(bytes(cand)) if p_[0] is not None]
+                    if not good:
+                        sc.add(raw(list(cand)), 'quiesce')
+                        ncorrupt[0] += 1
+                        break
+            else:
+                sc.add(up(*msgs), 'quiesce')
         if rng.random() < 0.4:
             sc.add(f'snap s{i + 1}')
     sc.add('snap end', 'stop')
@@ -209,6 +229,8 @@ def evaluate(ctx, r, cfg, nodes, hooks, meta):
     fold.fold(m, r.events, begin, hooks, on_snap)
     ctx.evaluations += 1
     ctx.count('snapshots_compared', nsnap[0])
+    ctx.count('bad_crc_packets_without_effect', r.scenario.count('\nraw '))
+    ctx.count('multi_message_packets', sum(1 for e in r.events if e.get('e') == 'up' and len(fold.packets_of([e]).get(e['pkt'], [])) > 1))
     if bad:
         tag, diffs = bad[0]
         path, exp, got = diffs[0]
